@@ -193,3 +193,46 @@ pub fn hex(bytes: &[u8]) -> String {
         bytes.iter().map(|b| format!("{:02x}", b)).collect()
     }
 }
+
+pub fn unhex(s: &str) -> Option<Vec<u8>> {
+    if s == "-" {
+        return Some(vec![]);
+    }
+    if s.len() % 2 != 0 {
+        return None;
+    }
+    (0..s.len() / 2)
+        .map(|i| u8::from_str_radix(&s[2 * i..2 * i + 2], 16).ok())
+        .collect()
+}
+
+impl EnvSpec {
+    /// Inverse of `encode` (two tokens `in=...` and `out=...`).
+    pub fn decode(sin: &str, sout: &str) -> Option<EnvSpec> {
+        let input = if sin == "in=none" {
+            None
+        } else if sin == "in=-" {
+            Some(vec![])
+        } else {
+            let mut v = Vec::new();
+            for it in sin.strip_prefix("in=")?.split(',') {
+                v.push(if it == "e" {
+                    InResp::Eof
+                } else if it == "x" {
+                    InResp::Err
+                } else {
+                    InResp::Byte(u8::from_str_radix(it.strip_prefix('b')?, 16).ok()?)
+                });
+            }
+            Some(v)
+        };
+        let (sink, out_ok) = if sout == "out=none" {
+            (true, None)
+        } else if sout == "out=absent" {
+            (false, None)
+        } else {
+            (true, Some(sout.strip_prefix("out=")?.parse().ok()?))
+        };
+        Some(EnvSpec { input, sink, out_ok })
+    }
+}
